@@ -69,7 +69,7 @@ def texts(tier):
                      _TABMIX)
     prev = st.one_of(st.none(), st.none(), st.sampled_from(['a = 1\nb = 2\nc = a + b\nprint(c)\n', 'x = (\n', '', 'def f():\n    return 1\nf()\nf()\n']))
     return st.fixed_dictionaries({'text': base, 'offset': st.sampled_from([0, 0, 1, 2, 5]), 'prev': prev, 'exotic': st.sampled_from([0, 0, 1, 2, 3, 4, 5])},
-                                 optional={'explicit': st.booleans()})
+                                 optional={'explicit': st.booleans(), 'other_file': st.booleans()})
 
 
 STRATEGIES = {'texts': texts}
@@ -117,12 +117,18 @@ def judge(case):
         if k:
             exotic = ['v = 1\n', '# page \x0c break\n', 's = "a\u2028b"\n', '# \x85 \x0b \x1c\n', 'w = 2\rq = 3\n', 'r = 4\r\n']
             prelude = ''.join(exotic[(case.get('exotic', 0) + i) % len(exotic)] if case.get('exotic') else 'v = 1\n' for i in range(k - 1)) + '##### Part 1\n'
-            contextualize_report(prelude + text)
+            other_file = bool(case.get('other_file'))
+            contextualize_report(prelude + ('fine = 1\nprint(fine)\n' if other_file else text))
             separate_into_sections(independent=True)
             before = len(MAIN_REPORT.feedback)
             next_section()
+            if other_file:
+                classes.append('other-file-while-section-active')
             # whole-file numbering: the prelude's real line count (line terminators as CPython's tokenizer sees them), not str.splitlines
             shifted_kind, shifted = reference('#\n' * len(re.findall(r'\r\n|\r|\n', prelude)) + text)
+            if other_file:
+                # the text is another file of the grading, verified under its own name: its lines are its own
+                shifted_kind, shifted = kind, ref
         elif case.get('prev') is not None:
             # a history: an earlier text was verified in the same report, then the source is replaced
             from pedal.source import set_source
@@ -147,7 +153,10 @@ def judge(case):
         MAIN_REPORT.full_clear()
         return Result([V('C12|setup-raises:%s' % type(e).__name__, 'sectioning raised %r for text %r' % (e, text[:200]))], True, classes)
     try:
-        ok = verify(text) if explicit else verify()
+        if k and case.get('other_file'):
+            ok = verify(text, filename='helper.py')
+        else:
+            ok = verify(text) if explicit else verify()
     except Exception as e:
         import traceback
         tb = traceback.extract_tb(e.__traceback__)[-1]
@@ -179,7 +188,7 @@ def judge(case):
             if want is not None:
                 got = fb.location.line if fb.location is not None else None
                 if got != want:
-                    viol.append(V('C12|line|%s' % ('section' if k else 'whole-file'),
+                    viol.append(V('C12|line|%s' % ('other-file-in-section' if (k and case.get('other_file')) else 'section' if k else 'whole-file'),
                                   'CPython reports line %r (whole-file numbering) but the feedback says %r; offset=%d text=%r'
                                   % (want, got, k, text[:200])))
         if ok is not False and not blank:
@@ -188,7 +197,7 @@ def judge(case):
         if syn:
             viol.append(V('C12|syntax-false-alarm', 'CPython accepts %r but syntax feedback %r attached' % (text[:200], syn[0].label)))
         stored = source.get('ast')
-        want_tree = ast.parse(('\n' + text) if k else text)
+        want_tree = ast.parse(('\n' + text) if (k and not case.get('other_file')) else text)
         if stored is None or ast.dump(stored) != ast.dump(want_tree):
             viol.append(V('C12|stored-tree', 'stored tree differs from ast.parse for %r' % text[:200]))
         if not blank and (ok is not True or source.get('success') is not True):
